@@ -216,7 +216,7 @@ JOINED_TARGETS = {"http://a.com/r?url=%2Fx": "http://a.com/x", "http://a.com?u=%
 
 
 def fixed_point_table(ctx, rule):
-    ctx.rule(rule, "model table (fixed point): infer_redirection, interpreted on one url per class {no key, absolute / nested / relative / protocol-relative / empty target, a key in host position, self-embedding, AMP / Marfeel cache with and without tail, youtube redirect, the 'q' key with and without its route, escaped or control-split key, double-escaped value, unparseable base (unbalanced bracket, bad port), degenerate strings}: the recursive result is unchanged by a further application, is (for a relative target) the url itself or the target resolved against it as a reference, equals what repeated non-recursive application converges to within 8 steps, and is the url itself or shorter")
+    ctx.rule(rule, "model table (fixed point): infer_redirection, interpreted on one url per class {no key, absolute / nested / relative / protocol-relative / empty target, a key in host position, self-embedding, AMP / Marfeel cache with and without tail, youtube redirect, the 'q' key with and without its route, escaped or control-split key, double-escaped value, unparseable base (unbalanced bracket, bad port), degenerate strings}: the recursive result is the same when the call is made a second time (nothing is remembered between calls), is unchanged by a further application, is (for a relative target) the url itself or the target resolved against it as a reference, equals what repeated non-recursive application converges to within 8 steps, and is the url itself or shorter")
     from ..microeval import Raised
     repo = ctx.repo
     mod = repo.mod("infer_redirection")
@@ -227,6 +227,7 @@ def fixed_point_table(ctx, rule):
         try:
             r = run_function(repo, ref, [u])
             again = run_function(repo, ref, [r]) if isinstance(r, str) else None
+            twice = run_function(repo, ref, [u])
             step = u
             for _ in range(8):
                 nxt = run_function(repo, ref, [step], {"recursive": False})
@@ -245,6 +246,8 @@ def fixed_point_table(ctx, rule):
             continue
         n += 1
         problems = []
+        if twice != r:
+            problems.append("the same call made a second time gives %r (state kept between calls)" % (twice,))
         if again != r:
             problems.append("applying it again gives %r" % (again,))
         if step != r:
